@@ -42,7 +42,14 @@ METH_O_PATHS = ["func", "tpcall", "partial", "literal", "cpdef", "cmeth", "cunbo
 # exhaustive families (cfg files; `bounds` = MaxPO, MaxPK, MaxKO of the union of the signature sets) and the
 # budget for the sampled 6/6/6 family (spec SimSpec, TLC -simulate)
 QUICK = {"cfg": ["ArgBind_quick"], "bounds": (1, 1, 2), "sim_s": 0, "sim_sigs": 0}
-THOROUGH = {"cfg": ["ArgBind_t0", "ArgBind_t1", "ArgBind_t2", "ArgBind_k3"], "bounds": (2, 2, 2), "sim_s": 150, "sim_sigs": 120}
+THOROUGH = {"cfg": ["ArgBind_quick", "ArgBind_t0", "ArgBind_t1", "ArgBind_t2", "ArgBind_k3"], "bounds": (2, 2, 2), "sim_s": 150,
+            "sim_sigs": 120}
+
+
+def in_quick_family(c):
+    """is this published case also a state of ArgBind_quick.cfg? (the thorough families overlap with it)"""
+    n = c[0] + c[1]
+    return c[0] <= 1 and c[1] <= 1 and len(c[4]) <= 2 and c[6] <= min(3, n + 1) and len(c[7]) <= 2
 
 
 def chunks(seq, n):
@@ -115,17 +122,24 @@ class Builder(object):
         return p.returncode == 0, d, p.stdout + p.stderr
 
 
-def run_cases(mode, mods, casesf, outdir, tag, aak_off=False, timeout=1500):
-    """Replay the cases file in a child (restarted after crashes).  -> (mismatches, stats, done)"""
+# paths that share a child process; a path whose compiled code corrupts memory cannot disturb another group
+PATH_GROUPS = [["func", "partial", "literal", "cpdef"], ["tpcall"], ["pymeth", "cmeth", "cunbound", "cpmeth"], ["ccall"]]
+MAX_CRASHES_PER_PATH = 3
+
+
+def run_group(mode, mods, casesf, outdir, tag, paths, aak_off=False, timeout=1500):
+    """Replay the cases file through `paths` in a child (restarted after crashes; a path that killed the child
+    MAX_CRASHES_PER_PATH times is dropped for the rest of this replay).  -> (mismatches, stats, done, crashes, dropped)"""
     os.makedirs(outdir, exist_ok=True)
     metaf = os.path.join(outdir, tag + "_meta.json")
     outf = os.path.join(outdir, tag + "_out.ndjson")
-    with open(metaf, "w") as f:
-        json.dump({"mods": [list(m) for m in mods], "paths": PATHS, "aak_off": aak_off, "meth_o_paths": METH_O_PATHS}, f)
     if os.path.exists(outf):
         os.unlink(outf)
-    start, crashes = 0, []
-    while True:
+    paths = list(paths)
+    start, crashes, dropped, recs = 0, [], [], []
+    while paths:
+        with open(metaf, "w") as f:
+            json.dump({"mods": [list(m) for m in mods], "paths": paths, "aak_off": aak_off, "meth_o_paths": METH_O_PATHS}, f)
         ch = core.run_child(L.CHILD, [mode, metaf, casesf, outf, str(start), "0"], timeout=timeout, mem_mb=6144)
         fatal = [j for j in ch.json_lines() if "fatal" in j]
         if fatal:
@@ -135,20 +149,23 @@ def run_cases(mode, mods, casesf, outdir, tag, aak_off=False, timeout=1500):
             break
         if not ch.crashed and not ch.timed_out:
             core.die("replay child failed (rc=%s): %s" % (ch.rc, ch.err[-2000:]))
-        # died in compiled code: find the case
+        # died in compiled code: find the case and the path
         last_p = max([r["p"] for r in recs if "p" in r] + [start])
         ch2 = core.run_child(L.CHILD, [mode, metaf, casesf, outf, str(last_p), "2001"], timeout=600, mem_mb=6144)
         recs = core.read_ndjson(outf)
-        ats = [r["at"] for r in recs if "at" in r]
+        ats = [r for r in recs if "at" in r]
         if (ch2.crashed or ch2.timed_out) and ats:
-            culprit = ats[-1]
-            crashes.append({"i": culprit, "signal": ch2.signal, "timeout": bool(ch2.timed_out),
-                            "path": [r for r in recs if "at" in r][-1].get("atpath", "?")})
+            culprit, cpath = ats[-1]["at"], ats[-1].get("atpath", "?")
+            crashes.append({"i": culprit, "signal": ch2.signal, "timeout": bool(ch2.timed_out), "path": cpath})
             start = culprit + 1
+            if sum(1 for c in crashes if c["path"] == cpath) >= MAX_CRASHES_PER_PATH and cpath in paths:
+                paths.remove(cpath)
+                dropped.append({"path": cpath, "from_case": culprit})
+                start = culprit
         else:
             start = last_p + 2001   # not reproducible in the careful run
-            crashes.append({"i": last_p, "signal": ch.signal, "timeout": bool(ch.timed_out), "unreproducible": True})
-        if len(crashes) >= 6:
+            crashes.append({"i": last_p, "signal": ch.signal, "timeout": bool(ch.timed_out), "path": "?", "unreproducible": True})
+        if len(crashes) >= 4 * MAX_CRASHES_PER_PATH:
             break
     mism, seen, stats, done = [], set(), {}, 0
     for r in recs:
@@ -158,16 +175,38 @@ def run_cases(mode, mods, casesf, outdir, tag, aak_off=False, timeout=1500):
                 seen.add(k)
                 mism.append(r)
         elif "done" in r:
-            done = r["done"]
+            done = max(done, r["done"])
             for p, n in r["stats"].items():
                 stats[p] = stats.get(p, 0) + n
-    return mism, stats, done, crashes
+    return mism, stats, done, crashes, dropped
+
+
+def run_cases(mode, mods, casesf, outdir, tag, aak_off=False, timeout=1500):
+    """all path groups, each in its own child, concurrently.  -> (mismatches, stats, done, crashes, dropped)"""
+    with concurrent.futures.ThreadPoolExecutor(max_workers=len(PATH_GROUPS)) as ex:
+        futs = [ex.submit(run_group, mode, mods, casesf, outdir, "%s_g%d" % (tag, i), g, aak_off, timeout)
+                for i, g in enumerate(PATH_GROUPS)]
+        res = [f.result() for f in futs]
+    mism, stats, crashes, dropped = [], {}, [], []
+    done = None
+    for m, st, d, cr, dr in res:
+        mism += m
+        for p, n in st.items():
+            stats[p] = stats.get(p, 0) + n
+        crashes += cr
+        dropped += dr
+        if not dr and not [c for c in cr if c.get("unreproducible")] and len(cr) < 4 * MAX_CRASHES_PER_PATH:
+            done = d if done is None else min(done, d)
+        elif d:
+            done = d if done is None else min(done, d)
+    return mism, stats, done or 0, crashes, dropped
 
 
 def describe(case, path, config):
     kinds = sorted({k for _, k in case[7]})
     return {"config": config, "path": path, "spec_outcome": case[9], "star": bool(case[3]), "starstar": bool(case[5]),
-            "posonly": case[0] > 0, "kwonly": len(case[4]) > 0, "key_kinds": "+".join(kinds) or "none"}
+            "posonly": case[0] > 0, "kwonly": len(case[4]) > 0, "key_kinds": "+".join(kinds) or "none",
+            "has_keywords": len(case[7]) > 0}
 
 
 def obs_class(want, got):
@@ -241,10 +280,7 @@ def run(tier, seed):
 
     # ---- signatures of the bounded family (enumerated independently of TLC), builds start right away
     sigs = L.all_sigs(*plan["bounds"])
-    if tier == "quick":
-        call_sigs = sorted(rng.sample(sigs, 72))
-    else:
-        call_sigs = sigs
+    call_sigs = sorted(rng.sample(sigs, 72 if tier == "quick" else 240))
     bld = Builder(wd, jobs)
     bld.add_sigs("b", sigs, call_sigs)
     if sim_sigs:
@@ -270,8 +306,8 @@ def run(tier, seed):
             r = core.tlc_or_die("ArgBind", cfg=cfg, timeout=1500, workers=jobs)
             cov["tlc"].append(dict(r.summary(), config=cfg))
             for c in r.printed:
-                if cfg == "ArgBind_k3" and len(c[7]) < 3:
-                    continue      # already part of the t0..t2 families
+                if cfg != "ArgBind_quick" and tier != "quick" and in_quick_family(c):
+                    continue      # already published by ArgBind_quick
                 cf.write(json.dumps(c, separators=(",", ":")) + "\n")
                 ncases += 1
                 classes[c[9]] = classes.get(c[9], 0) + 1
@@ -316,7 +352,7 @@ def run(tier, seed):
     # ---- P: the same source under CPython, all paths
     pydir = bld.py_dir()
     pmods = [(kind, pydir, name) for kind, name, _ in bld.modules]
-    pm, pstats, pdone, pcr = run_cases("py", pmods, casesf, os.path.join(wd, "run"), "py")
+    pm, pstats, pdone, pcr, _ = run_cases("py", pmods, casesf, os.path.join(wd, "run"), "py")
     if pdone != ncases or pcr:
         core.die("P replay incomplete: %s of %d, crashes %r" % (pdone, ncases, pcr))
     for m in pm[:50]:
@@ -345,8 +381,9 @@ def run(tier, seed):
         res = results[c]
         if res is None:
             continue
-        mism, stats, done, crashes = res
-        per_config[c] = {"cases": done, "calls": sum(stats.values()), "by_path": stats, "mismatches": len(mism), "crashes": len(crashes)}
+        mism, stats, done, crashes, dropped = res
+        per_config[c] = {"cases": done, "calls": sum(stats.values()), "by_path": stats, "mismatches": len(mism), "crashes": len(crashes),
+                         "paths_dropped_after_repeated_crashes": dropped}
         total_calls += sum(stats.values())
         if done != ncases and not crashes:
             core.die("replay %s incomplete: %d of %d" % (c, done, ncases))
@@ -369,7 +406,7 @@ def run(tier, seed):
         bad = [corrupt(c, rng) for c in pick]
         stf = os.path.join(wd, "selftest.ndjson")
         core.write_ndjson(stf, bad)
-        sm, _, _, _ = run_cases("ext", built["main"]["default"], stf, os.path.join(wd, "run"), "selftest")
+        sm = run_cases("ext", built["main"]["default"], stf, os.path.join(wd, "run"), "selftest")[0]
         rejected = {m["i"] for m in sm if m["path"] == "func"}
         if len(rejected) != len(bad):
             core.die("binding self-test: %d of %d corrupted expectations were accepted" % (len(bad) - len(rejected), len(bad)))
@@ -398,7 +435,7 @@ def run(tier, seed):
                         assumptions=["default values, positional and keyword values are distinct small ints; parameters are untyped objects",
                                      "str subclass keys do not override __eq__/__hash__",
                                      "always_allow_keywords=False: one-argument functions reject keywords by documented design (TypeError expected)",
-                                     "the tp_call classes cover a seeded sample of the signatures in the quick tier"],
+                                     "the cdef classes with __call__ (tp_call slot) cover a seeded sample of the signatures (72 quick / 240 thorough)"],
                         violations=rep.n_violations())
     return rc
 
@@ -424,7 +461,7 @@ def replay(path, seed):
     for c in configs:
         if len(built[c]) != len(bld.modules):
             continue
-        mism, stats, done, crashes = run_cases("ext", built[c], casesf, os.path.join(wd, "run"), c, aak_off=(c == "aak"))
+        mism, stats, done, crashes, _ = run_cases("ext", built[c], casesf, os.path.join(wd, "run"), c, aak_off=(c == "aak"))
         for m in mism:
             bad = 1
             print("config=%s path=%s def f(%s)  positional=%d keywords=%r  expected %r  got %r" % (
